@@ -81,8 +81,18 @@ class _StdApi:
         self.python_version_tuple = opc.version_tuple
         self.is_pypy = variant == PYPY
         self.is_graal = variant == GRAAL
+        self.cmp_op = opc.cmp_op
         self.hasconst = opc.hasconst
         self.hasname = opc.hasname
+        self.hasjrel = opc.hasjrel
+        self.hasjabs = opc.hasjabs
+        self.haslocal = opc.haslocal
+        self.hascompare = opc.hascompare
+        self.hasfree = opc.hasfree
+        self.hasnargs = opc.hasnargs
+        # dis has these from 3.12 on
+        self.hasarg = getattr(opc, "hasarg", [])
+        self.hasexc = getattr(opc, "hasexc", [])
         self.opmap = opc.opmap
         self.opname = opc.opname
         self.EXTENDED_ARG = opc.EXTENDED_ARG
@@ -280,8 +290,17 @@ def make_std_api(python_version=sys.version_info, variant=VARIANT):
 
 _std_api = make_std_api()
 
+cmp_op = _std_api.cmp_op
 hasconst = _std_api.hasconst
 hasname = _std_api.hasname
+hasjrel = _std_api.hasjrel
+hasjabs = _std_api.hasjabs
+haslocal = _std_api.haslocal
+hascompare = _std_api.hascompare
+hasfree = _std_api.hasfree
+hasnargs = _std_api.hasnargs
+hasarg = _std_api.hasarg
+hasexc = _std_api.hasexc
 opmap = _std_api.opmap
 opname = _std_api.opname
 EXTENDED_ARG = _std_api.EXTENDED_ARG
@@ -301,3 +320,4 @@ disco = _std_api.disco
 get_instructions = _std_api.get_instructions
 findlinestarts = _std_api.findlinestarts
 findlabels = _std_api.findlabels
+stack_effect = _std_api.stack_effect
